@@ -556,16 +556,16 @@ Proof.
     rewrite Ho in Hret. simpl in Hret.
     assert (Hfin : forall o, (o = finish (c_mode c) (c_max_param c) s \/ o = finish_timeout (c_mode c) (c_max_param c) s) ->
                    o = Ret v p -> chi2 (firstn (c_nparam c) p) = v).
-    { intros o Ho' Ho''. unfold finish, finish_timeout in Ho'.
+    { intros o Ho' Ho''. subst o. unfold finish, finish_timeout in Ho'.
       destruct (xltb (s_min s) thr_big) eqn:Hthr.
       - destruct (s_best s) as [[x m]|] eqn:Hb.
         + destruct (params_of (flag_three (c_mode c)) (c_max_param c) x m) as [p'|] eqn:Hp.
-          * assert (o = Ret (s_min s) p') by (destruct Ho'; assumption). subst o. inversion Ho''; subst.
+          * assert (E : Ret v p = Ret (s_min s) p') by (destruct Ho'; assumption). inversion E; subst.
             eapply best_reproduces; eassumption.
-          * assert (o = Ret NaN (zeros (c_max_param c))) by (destruct Ho'; assumption). subst o.
-            inversion Ho''; subst. rewrite xltb_nan_l in Hlt. discriminate.
-        + destruct Ho'; subst o; try discriminate. inversion Ho''; subst. rewrite xltb_nan_l in Hlt. discriminate.
-      - destruct Ho'; subst o; inversion Ho''; subst; [congruence | rewrite xltb_nan_l in Hlt; discriminate]. }
+          * assert (E : Ret v p = Ret NaN (zeros (c_max_param c))) by (destruct Ho'; assumption).
+            inversion E; subst. rewrite xltb_nan_l in Hlt. discriminate.
+        + destruct Ho' as [E | E]; [discriminate|]. inversion E; subst. rewrite xltb_nan_l in Hlt. discriminate.
+      - destruct Ho' as [E | E]; inversion E; subst; [congruence | rewrite xltb_nan_l in Hlt; discriminate]. }
     unfold after_loop in Hret.
     destruct why as [ | | | [ | | ]]; try (eapply Hfin; [left; reflexivity | assumption]).
     + eapply Hfin; [right; reflexivity | assumption].
@@ -577,7 +577,7 @@ Proof.
     { inversion Hret; subst. rewrite xltb_pinf_l in Hlt. discriminate. }
     destruct ((c_Nconv c <=? 0) || (c_Niter c <=? 0) || (c_Niter c <? c_Nconv c)); [discriminate|].
     destruct (c_sym c) as [h | e] eqn:Hsym.
-    + pose proof (Hcons h eq_refl) as Hh.
+    + pose proof (Hcons h Hsym) as Hh.
       destruct h; simpl in *.
       * destruct (c_nparam c =? 0)%nat.
         { destruct (c_xvar c); inversion Hret; subst; [rewrite xltb_nan_l in Hlt | rewrite xltb_pinf_l in Hlt]; discriminate. }
@@ -686,7 +686,7 @@ Proof.
           rewrite Hu in H.
         -- inversion H; subst. split; [lia | auto].
         -- destruct (IH _ _ _ _ _ H) as [A B]. split; [lia|]. destruct why; try assumption. lia.
-        -- inversion H; subst. split; [lia | assumption].
+        -- inversion H; subst jend s' why. split; [lia | assumption].
       * destruct (IH _ _ _ _ _ H) as [A B]. split; [lia|]. destruct why; try assumption. lia.
 Qed.
 
@@ -703,7 +703,7 @@ Theorem sign_coverage : forall c why,
   o_stop (OPT c) = Some why -> c_mode c <> MLin ->
   let nd := ndraws (c_nparam c) in
   (c_log_opt c = true /\ (c_nparam c <= 2)%nat) /\
-  (forall e, why <> StopExc e -> (1 <= o_iters (OPT c))%nat) /\
+  (1 <= o_iters (OPT c))%nat /\
   forall i p, (i < ncomplete (o_iters (OPT c)) why)%nat -> length p = c_nparam c ->
     In (start_of rnd nd i, signs_of p) (o_log (OPT c)) /\ In (signs_of p, p) (branches (c_mode c)).
 Proof.
@@ -716,9 +716,8 @@ Proof.
       destruct (c_mode c); lia. }
   destruct (the_loop_spec _ _ _ _ Hl) as [_ [_ [Hcap [Hpos _]]]].
   rewrite Ho. simpl. split.
-  { intros Hne. destruct why; try (apply Hpos; discriminate).
-    - rewrite Hcap by reflexivity. destruct Hv as [Hv1 [Hv2 Hv3]]. lia.
-    - exfalso. eapply Hne; reflexivity. }
+  { destruct why; try (apply Hpos; discriminate).
+    rewrite Hcap by reflexivity. destruct Hv as [Hv1 [Hv2 Hv3]]. lia. }
   intros i p Hi Hp.
   assert (Hcov : In (signs_of p, p) (branches (c_mode c))).
   { apply (branches_cover (c_mode c) (c_nparam c)); [|assumption].
@@ -784,7 +783,7 @@ Proof.
 Qed.
 
 (* T7: if some processed iteration hands back the global minimum, the routine returns it *)
-Theorem C10_conditional : forall c why m i rs,
+Theorem conditional_global_min : forall c why m i rs,
   contract (c_nparam c) ->
   (forall q, isnan (chi2 q) = true \/ xleb m (chi2 q) = true) ->        (* m bounds the likelihood from below *)
   o_stop (OPT c) = Some why -> (forall e, why <> StopExc e) ->
@@ -799,7 +798,7 @@ Proof.
   intros c why m i rs Hct Hlb Hstop Hne md nd Hi Hc Hnn Hok [r0 [Hr0 Hm0]].
   pose proof (contract_lengths c Hct) as Hlen.
   destruct (best_of_all_iterations c why Hlen Hstop Hne) as [v [p [Hret [Hlow Hatt]]]].
-  destruct (sel_total _ _ _ Hc) as [r [mm Hs]].
+  destruct (sel_total _ _ _ _ Hc) as [r [mm Hs]].
   assert (Hin : In r rs).
   { unfold sel in Hs. fold md nd in Hs. rewrite Hc in Hs.
     destruct (select md rs) as [k|]; [|discriminate].
@@ -853,3 +852,59 @@ Lemma neginf_dropped_witness :
   o_ret o = Ret PInf (zeros 4) /\ o_stop o = Some StopInf /\ o_iters o = 50%nat /\
   sel w_oracle (stream []) MLin 1 49 = Some (mkRes [2] NInf true, []).
 Proof. vm_compute. repeat split. Qed.
+
+(* ---------------------------------------------------------------- a concrete instance (non-vacuity of the hypotheses) *)
+(* likelihood (a0 + 100)^2 + (a1 - 10)^2, minimum 0 at (-100, 10) = (-10^2, +10^1); an oracle that finds the
+   minimiser of the (-,+) orthant and sits at 10^0 in the others *)
+Fixpoint ex_sumsq (t : list Z) (q : list par) : Z :=
+  match t, q with
+  | ti :: tr, qi :: qr => (par_eval qi - ti) ^ 2 + ex_sumsq tr qr
+  | _, _ => 0
+  end.
+Definition ex_chi2 (q : list par) : xz := Fin (ex_sumsq [-100; 10] q).
+Definition ex_x (sg : option (list sgn)) : list Z :=
+  match sg with Some [SMinus; SPlus] => [2; 1] | _ => [0; 0] end.
+Definition ex_oracle : nat -> list Z -> option (list sgn) -> answer :=
+  fun _ _ sg => Res (ex_x sg) (ex_chi2 (decode sg (ex_x sg))) true.
+Definition ex_cfg : cfg :=
+  mkCfg [true; true] 4 0 true false true false [6] [2] (SymOk true) true (table_nanpat [[false; true]]).
+
+Lemma ex_sumsq_nonneg : forall t q, 0 <= ex_sumsq t q.
+Proof.
+  induction t as [|ti tr IH]; intros q; simpl; [lia|]. destruct q as [|qi qr]; [lia|].
+  specialize (IH qr). pose proof (Z.pow_2_r (par_eval qi - ti)). nia.
+Qed.
+Lemma ex_contract : contract ex_chi2 ex_oracle 2.
+Proof.
+  intros k st sg x f ok H. unfold ex_oracle in H. inversion H; subst. split; [|reflexivity].
+  unfold ex_x. repeat (match goal with |- context [match ?a with _ => _ end] => destruct a end; try reflexivity).
+Qed.
+Lemma ex_lower : forall q, isnan (ex_chi2 q) = true \/ xleb (Fin 0) (ex_chi2 q) = true.
+Proof.
+  intros q. right. unfold ex_chi2. generalize (ex_sumsq_nonneg [-100; 10] q). generalize (ex_sumsq [-100; 10] q).
+  intros z H. unfold xleb, xltb, xeqb.
+  apply orb_true_iff. destruct (Z.eq_dec 0 z) as [E | E].
+  - right. apply Z.eqb_eq. assumption.
+  - left. apply Z.ltb_lt. lia.
+Qed.
+Lemma ex_consistent : consistent ex_cfg.
+Proof. intros h H. vm_compute in H. inversion H. reflexivity. Qed.
+(* the conclusion of C10_conditional obtained from the theorem, all hypotheses discharged *)
+Lemma ex_conditional :
+  exists p, o_ret (optimise ex_chi2 ex_oracle (stream [1; 2]) ex_cfg) = Ret (Fin 0) p /\
+            ex_chi2 (firstn 2 p) = Fin 0.
+Proof.
+  destruct (conditional_global_min ex_chi2 ex_oracle (stream [1; 2]) ex_cfg StopConv (Fin 0) 0
+             [mkRes [0;0] (Fin 10282) true; mkRes [2;1] (Fin 0) true; mkRes [0;0] (Fin 10322) true; mkRes [0;0] (Fin 9922) true])
+    as [p [H1 H2]].
+  - exact ex_contract.
+  - exact ex_lower.
+  - vm_compute. reflexivity.
+  - intros e; discriminate.
+  - vm_compute. lia.
+  - vm_compute. reflexivity.
+  - intros r Hr. simpl in Hr. destruct Hr as [<- | [<- | [<- | [<- | []]]]]; reflexivity.
+  - intros H; vm_compute in H; discriminate.
+  - exists (mkRes [2;1] (Fin 0) true). split; [simpl; tauto | reflexivity].
+  - exists p. split; [exact H1|]. apply H2. reflexivity.
+Qed.
